@@ -293,3 +293,23 @@ func againV2(c *mon.Ctx, script *runtimev2.Script, name, src string, mo ref.Outc
 	}
 	return true
 }
+
+// wrapDeep puts a whole program below depth enclosing blocks of alternating
+// kinds (if true / a loop that runs once / a for-in over one element): the
+// program means the same, everything in it just lives deeper (scope frames,
+// loop flags, nested statement lists). The wrappers' loop variables use
+// names no generator uses.
+func wrapDeep(stmts []*gt.T, depth int) []*gt.T {
+	for d := depth; d > 0; d-- {
+		switch d % 3 {
+		case 0:
+			stmts = []*gt.T{gt.If(gt.Bool(true), stmts...)}
+		case 1:
+			q := fmt.Sprintf("zw%d", d)
+			stmts = []*gt.T{gt.For(gt.Assign("=", gt.Ident(q), gt.Int(0)), gt.Bin("<", gt.Ident(q), gt.Int(1)), gt.Assign("=", gt.Ident(q), gt.Bin("+", gt.Ident(q), gt.Int(1))), stmts...)}
+		default:
+			stmts = []*gt.T{gt.ForIn(fmt.Sprintf("zv%d", d), gt.List(gt.Int(1)), stmts...)}
+		}
+	}
+	return stmts
+}
